@@ -105,7 +105,7 @@ class WeightInterp:
     def run(self, fn, state, facts, depth=5):
         """Returns set of (state, frozen facts) at the normal exits of fn."""
         cfg = cfg_of(fn)
-        paths = cfg.paths(targets=[cfg.exit.id], max_visits=1, limit=3000)
+        paths = cfg.paths(targets=[cfg.exit.id], limit=3000)
         self.paths += len(paths)
         outs = set()
         for path in paths:
